@@ -1,7 +1,7 @@
 /* C10 — CBOR encoder/decoder round trip against an independent RFC 8949 head reader,
  * plus (for C04) the decoder on arbitrary bytes. */
 #include "verif.h"
-#include <aws/common/cbor.h>
+#include <../source/cbor.c> /* part of this TU so that encoder/decoder objects can come from typed pools */
 #include <aws/common/byte_buf.h>
 #include <aws/common/error.h>
 #include <math.h>
@@ -12,6 +12,15 @@
 #ifndef N
 #    define N 4
 #endif
+static struct aws_cbor_encoder enc_pool[2];
+static struct aws_cbor_decoder dec_pool[2];
+static size_t enc_n, dec_n;
+void *verif_typed_calloc(size_t size) {
+    if (size == sizeof(struct aws_cbor_encoder) && enc_n < 2) { enc_pool[enc_n] = (struct aws_cbor_encoder){0}; return &enc_pool[enc_n++]; }
+    if (size == sizeof(struct aws_cbor_decoder) && dec_n < 2) { dec_pool[dec_n] = (struct aws_cbor_decoder){0}; return &dec_pool[dec_n++]; }
+    return NULL;
+}
+bool verif_typed_release(void *p) { return p == &enc_pool[0] || p == &enc_pool[1] || p == &dec_pool[0] || p == &dec_pool[1]; }
 #ifndef VERIF_NATIVE
 int __builtin_isfinite(double x) { return __CPROVER_isfinited(x); }
 /* libm: only reachable when decoding a half-precision float (the encoder never emits one) */
